@@ -422,10 +422,13 @@ func main() {
 		names = strings.Split(os.Getenv("VERIF_ONLY"), ",")
 	}
 	bound := c.Pick(1, 2)
-	budget := c.PickD(150*time.Second, 20*time.Minute)
+	budget := c.PickD(200*time.Second, 20*time.Minute)
 	deadline := time.Now().Add(budget)
 	for i, n := range names {
-		per := time.Until(deadline) / time.Duration(len(names)-i)
+		per := 2 * time.Until(deadline) / time.Duration(len(names)-i) // twice the even share: most scenarios finish well below it, the deadline bounds the total
+		if per > time.Until(deadline) {
+			per = time.Until(deadline)
+		}
 		if per < 2*time.Second {
 			per = 2 * time.Second
 		}
